@@ -258,13 +258,18 @@ def specVal (st : Runtime.St) (spec : Json) : Runtime.St × Runtime.RV :=
     (st', .ref true n)
   | _ => (st, .nil)
 
-def rtScript (p : Runtime.Prog) (ops : List Json) : List Json :=
+def rtScript (p0 : Runtime.Prog) (ops : List Json) : List Json :=
   let F := Runtime.fuel
-  (ops.foldl (fun (acc : Runtime.St × List Json) op =>
-    let (st, out) := acc
+  (ops.foldl (fun (acc : List (String × String) × Runtime.St × List Json) op =>
+    let (env, st, out) := acc
+    -- the environment is the only part of the program a script can change (setenv / unsetenv between two calls)
+    let p : Runtime.Prog := { p0 with env := env }
     let a := (op.getArr?.toOption.getD #[]).toList
     let s := fun (i : Nat) => ((a[i]?).bind (·.getStr?.toOption)).getD ""
-    match s 0 with
+    if s 0 == "setenv" then ((s 1, s 2) :: env.filter (·.1 != s 1), st, out ++ [Json.mkObj [("ok", "env")]])
+    else if s 0 == "unsetenv" then (env.filter (·.1 != s 1), st, out ++ [Json.mkObj [("ok", "env")]])
+    else
+    let r : Runtime.St × List Json := match s 0 with
     -- the calls a program can make go through `Runtime.stepOp`, the step function the history theorems are about
     | "get" =>
       let (st', r) := Runtime.stepOp F p st (.get (s 1))
@@ -309,7 +314,8 @@ def rtScript (p : Runtime.Prog) (ops : List Json) : List Json :=
         | r, _ => (st'', out ++ [rtResult st'' r])
     | "evallog" => (st, out ++ [Json.mkObj [("ok", strList st.evalLog)]])
     | "taggedorder" => (st, out ++ [Json.mkObj [("ok", strList (Runtime.taggedOrder p.out (s 1)))]])
-    | o => (st, out ++ [Json.mkObj [("badop", o)]])) (({} : Runtime.St), [])).2
+    | o => (st, out ++ [Json.mkObj [("badop", o)]])
+    (env, r.1, r.2)) (p0.env, ({} : Runtime.St), [])).2.2
 
 def handle (j : Json) : Json :=
   match jstr j "op" with
